@@ -1,4 +1,5 @@
 import CookModel.Lemmas.StdMetaPairs
+import CookModel.Lemmas.StdMetaNameUrl
 /-
   The parse-time check against the accessors, and converters that rename the hard-coded units.
 -/
@@ -41,6 +42,44 @@ theorem check_servings_stored (c : Conv α) (alpha : Char → Bool) (v : Y) (l :
   cases valueAsServings v <;> simp
 
 end
+
+theorem isSome_iff_exists {β : Type} (o : Option β) : o.isSome = true ↔ ∃ b, o = some b := by
+  cases o <;> simp
+
+theorem except_isSome_iff {ε β : Type} (e : Except ε β) : e.toOption.isSome = true ↔ ∃ b, e = .ok b := by
+  cases e <;> simp [Except.toOption]
+
+/-- the accessor gives something exactly for the values of a documented form -/
+theorem accessorGives_iff (c : Conv Rat) (hr : TimeRatiosNonzero c) (alpha : Char → Bool) (hcolon : alpha ':' = false)
+    (k : StdKey) (v : Y) : accessorGives c alpha k v = true ↔ Accepts c alpha k v := by
+  cases k <;> simp only [accessorGives, Accepts]
+  case title => rw [isSome_iff_exists]; cases v <;> simp [asStr]
+  case description => rw [isSome_iff_exists]; cases v <;> simp [asStr]
+  case tags => rw [isSome_iff_exists]; simp only [valueAsTags_iff]
+  case author => rw [isSome_iff_exists]; simp only [asNameAndUrl_iff alpha hcolon]
+  case source => rw [isSome_iff_exists]; simp only [asNameAndUrl_iff alpha hcolon]
+  case time => rw [except_isSome_iff]; simp only [valueAsTime_iff c hr]
+  case prepTime => rw [except_isSome_iff]; simp only [valueAsMinutes_iff c hr]
+  case cookTime => rw [except_isSome_iff]; simp only [valueAsMinutes_iff c hr]
+  case servings => rw [isSome_iff_exists]; simp only [valueAsServings_iff]
+  case locale => rw [isSome_iff_exists]; simp only [valueAsLocale_iff]
+
+/-- the analysis warns exactly on the standard keys whose value is outside the documented forms -/
+theorem entryWarns_iff_outside (c : Conv Rat) (hr : TimeRatiosNonzero c) (alpha : Char → Bool) (hcolon : alpha ':' = false)
+    (key : Str) (v : Y) :
+    entryWarns c alpha key v = true ↔ ∃ k, StdKey.fromStr key = some k ∧ ¬ Accepts c alpha k v := by
+  rw [entryWarns_iff]
+  constructor
+  · rintro ⟨k, hk, hg⟩
+    refine ⟨k, hk, ?_⟩
+    intro ha
+    rw [(accessorGives_iff c hr alpha hcolon k v).mpr ha] at hg
+    exact absurd hg (by simp)
+  · rintro ⟨k, hk, hna⟩
+    refine ⟨k, hk, ?_⟩
+    cases hg : accessorGives c alpha k v with
+    | false => rfl
+    | true => exact absurd ((accessorGives_iff c hr alpha hcolon k v).mp hg) hna
 
 /-! ### renamed units -/
 
